@@ -73,6 +73,43 @@ CONFIG['C18'] = {'assumptions': ['material identity is observed by DER equality 
                   'stream H (handshake) uses a hand model of crypto/tls verification (version negotiation, chain + name check, callback, client '
                   'certificate selection): support, not proof; assumes the generated CAs are not in the system pool']}
 
+CONFIG['C06'] = {'assumptions': ['media types in consumes lists, defaults and registrations are ASCII (strings.EqualFold/ToLower differ from the model on non-ASCII '
+                 'letters)',
+                 'the property quantifies over consumes lists spelled in lower case: for a configuration with a mixed-case consumes entry only the '
+                 'correspondence is checked (tag ~mixedcase), the Spec is not judged',
+                 'requests are handed to the handlers as *http.Request values (no wire parsing); every lookup yields a fresh MatchedRoute '
+                 '(route.Consumer nil)'],
+ 'go_entry': 'middleware.Context.BindAndValidate, middleware.Context.BindValidRequest, middleware.Serve handler (runtime.HasBody, '
+             'runtime.ContentType, validateContentType behind them)',
+ 'model_fn': 'untypedRaw / typedRaw / observe (gateUntyped, gateTyped), hasBody, routeConsumer',
+ 'partial': [],
+ 'quick_n': 12000,
+ 'rule': 'API configurations (operation consumes lists of 0-3 entries: concrete types, type/*, */*, entries with parameters, odd tokens, a few '
+         'mixed-case ones; API default absent/present; 0-6 RegisterConsumer calls with case variants and duplicates, instrumented consumers) x '
+         'requests (7 methods in either case; Content-Type absent / empty / two lines / valid with case flips, parameters, quoted values, '
+         'surrounding whitespace / literal wildcards / malformed / noise bytes; body signalled by Content-Length, by a stream without length, '
+         'absent, and contradictory combinations). Every case runs Context.BindAndValidate, Context.BindValidRequest (with the binder a generated '
+         'server uses) and the complete middleware.Serve handler on the same request; outputs are the error codes in order, route.Consumer, the '
+         'consumer whose Consume ran, status, whether the operation handler ran, plus runtime.HasBody and mime.ParseMediaType of the effective '
+         'header (and of its own result) as observed. Thorough tier adds the exhaustive product over a 12-entry media-type universe (consumes lists '
+         'of <= 2 entries x 3 defaults x 3 registries x 16 headers x 3 body signals x 2 methods = 68k cases). A case is trivial only when there is '
+         'neither header nor body signal.',
+ 'search_s': 60,
+ 'thorough_n': 100000,
+ 'thorough_seeds': 2,
+ 'trusted_base': ['reading of the property text into the Lean `Spec` (human step, RtVerif/Model/<id>.lean)',
+                  'correspondence check (differential: Go harness /verif/harness -> protocol lines -> compiled Lean driver rtdriver evaluating Model '
+                  'and Spec); coverage bounded by the generators',
+                  "factgen (go/ast extraction of constants/tables into RtVerif/Gen/Facts.lean) and the driver's line parser",
+                  'mime.ParseMediaType is a parameter of the model (`pmt`); the theorems assume PmtOK (its result parses to itself, is non-empty, '
+                  "holds no ';'), re-checked against the real function on every case (a failure is reported as a correspondence break with tag "
+                  'PMT-HYPOTHESIS-FAILED)',
+                  "the peek into the body stream (bufio) behind runtime.HasBody is the boolean `streamHasData` (C17's subject)",
+                  'net/http Header.Get, go-openapi/errors (codes 400/415/500, ServeError serving the first error of a composite), '
+                  "analysis.ConsumesFor (returns the operation's list, order irrelevant), swag.ContainsStringsCI / strings.EqualFold (ASCII folding)",
+                  'downstream of the gate (parameter binder calling Consume only when HasBody, handler invocation) is modelled by '
+                  '`consumerRan`/`handlerRan` and checked differentially only']}
+
 # properties not claimed (with the reason) and hook commits in /repo (none so far: no hooks needed)
 NOT_APPLICABLE = {}
 HOOK_COMMITS = []
